@@ -24,3 +24,14 @@ Definition ack_of (log : list entry) (e : entry) : result := snd (spec_entry (fs
 
 Definition api_mutation (c : command) : bool :=
   match c with CPut _ _ _ | CDelete _ _ _ _ | CTxn _ _ _ => true | _ => false end.
+
+(* storage/engine.go Range / IterateRange / Txn: the engine hands the request to the table as it came, whatever role the
+   node has in the table's shard (leader or follower) *)
+Definition engine_range_path (linearizable is_leader : bool) : read_path := range_path linearizable.
+Definition engine_txn_path (is_leader : bool) : read_path := readonly_txn_path.
+
+(* where a read is served by a replica that has applied `applied` entries when `committed` entries are committed:
+   dragonboat's ReadIndex contract for SyncRead (the replica answers once it has applied at least the commit index of
+   the moment the read was requested - it waits, or fails; never less), the replica's own state for StaleRead *)
+Definition serve_at (p : read_path) (applied committed : nat) : nat :=
+  match p with SyncRead => Nat.max applied committed | StaleRead => applied end.
